@@ -10,12 +10,13 @@ package storage
 //@ -- prefix-free among all prefixes of badger_graph.go ("TOPOLOGY" vs "TRANSACTION": 'O' != 'R'; "SNAPTOPO" vs "SNAPSHOT": 'T' != 'S'; no
 //@ -- prefix is an initial segment of "TOPOLOGY"/"SNAPTOPO"/"SNAPSHOT" and none extends them), the payloads have fixed widths (8, 32, 32+8+32).
 //@ -- TopoKeyId(o) is meaningful for 0 <= o < 2^64 only (the be64 encoding). Every topology key carries the prefix graphPrefixTopology.
+//@ -- kind numbers 31/32/33: unique among ALL key-space axioms of package storage (C20 uses 7/8 for ROUND/LINK, C28 uses 7 for CONSENSUSSNAPSHOT)
 //@ uninterp TopoKeyId(o mathint) mathint
 //@ uninterp SnapTopoKeyId(h mathint) mathint
 //@ uninterp SnapshotKeyId(n mathint, r mathint, h mathint) mathint
-//@ axiom forall o mathint :: {TopoKeyId(o)} 0 <= o && o < 18446744073709551616 ==> keykind(TopoKeyId(o)) == 7 && keynum(TopoKeyId(o)) == o && badger.keypfx(TopoKeyId(o), strkey(graphPrefixTopology)) == 0
-//@ axiom forall h mathint :: {SnapTopoKeyId(h)} keykind(SnapTopoKeyId(h)) == 8 && keyhid(SnapTopoKeyId(h)) == h && badger.keypfx(SnapTopoKeyId(h), strkey(graphPrefixTopology)) != 0
-//@ axiom forall n, r, h mathint :: {SnapshotKeyId(n, r, h)} keykind(SnapshotKeyId(n, r, h)) == 9
+//@ axiom forall o mathint :: {TopoKeyId(o)} 0 <= o && o < 18446744073709551616 ==> keykind(TopoKeyId(o)) == 31 && keynum(TopoKeyId(o)) == o && badger.keypfx(TopoKeyId(o), strkey(graphPrefixTopology)) == 0
+//@ axiom forall h mathint :: {SnapTopoKeyId(h)} keykind(SnapTopoKeyId(h)) == 32 && keyhid(SnapTopoKeyId(h)) == h && badger.keypfx(SnapTopoKeyId(h), strkey(graphPrefixTopology)) != 0
+//@ axiom forall n, r, h mathint :: {SnapshotKeyId(n, r, h)} keykind(SnapshotKeyId(n, r, h)) == 33
 //@ -- byte order of the fixed-width big-endian keys of ONE prefix == numeric order (binary.BigEndian: the most significant byte comes first)
 //@ axiom forall x, y mathint :: {badger.keylt(TopoKeyId(x), TopoKeyId(y))} 0 <= x && x < 18446744073709551616 && 0 <= y && y < 18446744073709551616 ==> (badger.keylt(TopoKeyId(x), TopoKeyId(y)) <==> x < y)
 //@ spec TP(o mathint) mathint = TopoKeyId(o)
@@ -42,7 +43,7 @@ package storage
 //@ -- TopoOK: every entry whose key starts with "TOPOLOGY" is a topology key TOPOLOGY|be64(o).
 //@ spec TopoOK(t badger.Txn) bool = forall k mathint :: {badger.kvget(t, k)} badger.kvget(t, k) != 0 && badger.keypfx(k, strkey(graphPrefixTopology)) == 0 ==> IsTopoKey(k)
 //@ -- SnapTopoOK: the value of every SNAPTOPO entry is (the bytes of) a topology key.
-//@ spec SnapTopoOK(t badger.Txn) bool = forall k mathint :: {badger.kvget(t, k)} badger.kvget(t, k) != 0 && keykind(k) == 8 ==> IsTopoKey(badger.kvget(t, k))
+//@ spec SnapTopoOK(t badger.Txn) bool = forall k mathint :: {badger.kvget(t, k)} badger.kvget(t, k) != 0 && keykind(k) == 32 ==> IsTopoKey(badger.kvget(t, k))
 
 //@ -- At(t, o): id of the value stored at topology position o (the SNAPSHOT key of the snapshot), 0 = position free.
 //@ spec At(t badger.Txn, o mathint) mathint = badger.kvget(t, TP(o))
@@ -131,7 +132,7 @@ package storage
 
 //@ -- ═════════ the public observation points: one read-only transaction over the committed state each ═════════
 //@ spec DbTopoOK(d badger.DB) bool = forall k mathint :: {badger.dbget(d, k)} badger.dbget(d, k) != 0 && badger.keypfx(k, strkey(graphPrefixTopology)) == 0 ==> IsTopoKey(k)
-//@ spec DbSnapTopoOK(d badger.DB) bool = forall k mathint :: {badger.dbget(d, k)} badger.dbget(d, k) != 0 && keykind(k) == 8 ==> IsTopoKey(badger.dbget(d, k))
+//@ spec DbSnapTopoOK(d badger.DB) bool = forall k mathint :: {badger.dbget(d, k)} badger.dbget(d, k) != 0 && keykind(k) == 32 ==> IsTopoKey(badger.dbget(d, k))
 //@ spec DbAt(d badger.DB, o mathint) mathint = badger.dbget(d, TP(o))
 //@ spec DbStored(d badger.DB, o mathint) mathint = badger.dbget(d, badger.dbget(d, TP(o)))
 
